@@ -2,6 +2,7 @@
 Spec oracles (C01, C04, C05, C07, C08, C16, C18).  Facts the oracles need about the world are
 computed here with the real kernel on the freshly built sandbox, never by the code under test."""
 import os
+import re
 import stat
 
 from .lean import hx, unhx
@@ -48,6 +49,19 @@ def dev_of(sb, world, real):
     return best
 
 
+def blocked_by_dangling(real_str):
+    """the kernel cannot `mkdir -p` this path string: its first prefix that does not exist when links are followed is
+    itself there - a symbolic link that does not resolve"""
+    parts = real_str.split(b"/")
+    for k in range(1, len(parts) + 1):
+        if parts[k - 1] == b"":
+            continue
+        pre = b"/".join(parts[:k]) or b"/"
+        if not os.path.exists(pre):
+            return os.path.lexists(pre)
+    return False
+
+
 def trash_dirs(sb, world):
     """every trash directory in scope: [(canonical model dir, base or None, kind, volume, parentOk)]"""
     uid = world.get("uid", 0)
@@ -55,15 +69,21 @@ def trash_dirs(sb, world):
     opts = world.get("opts", {})
     cwd = _real(sb, world["cwd"])
 
-    def canon(model_str):
+    def raw(model_str):
         r = _real(sb, model_str)
         if not r.startswith(b"/"):
             r = os.path.join(cwd, r)
-        return os.path.realpath(r)
+        return r
+
+    def canon(model_str):
+        return os.path.realpath(raw(model_str))
+
+    def blocked(model_str):
+        return any(blocked_by_dangling(raw(model_str) + suf) for suf in (b"", b"/files", b"/info"))
 
     h = spec_home_trash(world.get("env", {}))
     if h is not None:
-        out.append({"dir": canon(h), "base": None, "kind": "home", "str": h, "parentOk": True})
+        out.append({"dir": canon(h), "base": None, "kind": "home", "str": h, "parentOk": True, "blocked": blocked(h)})
     for m in world["mounts"]:
         mr = _real(sb, m)
         t = mr + b"/.Trash"
@@ -74,11 +94,13 @@ def trash_dirs(sb, world):
         except OSError:
             pass
         out.append({"dir": canon(m + b"/.Trash/%d" % uid), "base": m, "kind": "top", "vol": mr, "parentOk": ok,
-                    "insecure": os.path.lexists(t) and not ok})
-        out.append({"dir": canon(m + b"/.Trash-%d" % uid), "base": m, "kind": "alt", "vol": mr, "parentOk": True})
+                    "insecure": os.path.lexists(t) and not ok, "blocked": blocked(m + b"/.Trash/%d" % uid)})
+        out.append({"dir": canon(m + b"/.Trash-%d" % uid), "base": m, "kind": "alt", "vol": mr, "parentOk": True,
+                    "blocked": blocked(m + b"/.Trash-%d" % uid)})
     if opts.get("trashDir"):
         c = canon(opts["trashDir"])
-        out.append({"dir": c, "base": _model(sb, dev_of(sb, world, c)), "kind": "custom", "parentOk": True})
+        out.append({"dir": c, "base": _model(sb, dev_of(sb, world, c)), "kind": "custom", "parentOk": True,
+                    "blocked": blocked(opts["trashDir"])})
     return out
 
 
@@ -109,7 +131,7 @@ def put_facts(sb, world):
                        "files": _model(sb, os.path.realpath(d["dir"] + b"/files")),
                        "info": _model(sb, os.path.realpath(d["dir"] + b"/info")),
                        "vol": _model(sb, d["vol"]) if "vol" in d else None,
-                       "insecure": d.get("insecure", False)} for d in tds]}
+                       "insecure": d.get("insecure", False), "blocked": bool(d.get("blocked"))} for d in tds]}
     return facts
 
 
@@ -142,7 +164,7 @@ def named_args(world, stderr):
     """arguments named by a diagnostic"""
     out = []
     for a in world["args"]:
-        out.append((b"'" + a + b"'") in stderr or (b" " + a + b" ") in stderr or (b" " + a + b"\n") in stderr)
+        out.append((b"'" + a + b"'") in stderr or (a != b"" and ((b" " + a + b" ") in stderr or (b" " + a + b"\n") in stderr)))
     return out
 
 
@@ -222,11 +244,22 @@ def evaluate(world, drv, plan=None, model_faults=None, oracles=("C01", "C04", "C
         res["oracle"]["C16"] = drv.ask(dict(base, prop="C16", dirs=dirs, items=items, exit=iexit))
     if "C18" in oracles:
         links = [it for it in facts["items"] if it.get("kind") == "link"]
+
+        def frame_target(it):
+            """the link's target, as far as the run has no other business below it: another argument or a trash directory
+            in scope inside the target (a link to the top of a volume) legitimately changes its subtree"""
+            t = it.get("target")
+            if not t:
+                return None
+            below = [o["entry"] for o in facts["items"] if o is not it and o.get("entry")] + [d["dir"] for d in facts["dirs"]]
+            if any(x == t or x.startswith(t.rstrip(b"/") + b"/") for x in below):
+                return None
+            return t
         if links:
             r = drv.ask(dict(base, prop="C18",
                              dirsWithBase=[{"dir": hx(d["dir"]), "base": hx(d["base"]) if d["base"] is not None else None}
                                            for d in facts["dirs"]],
-                             items=[{"link": hx(it["entry"]), "target": hx(it["target"]) if it.get("target") else None,
+                             items=[{"link": hx(it["entry"]), "target": hx(frame_target(it)) if frame_target(it) else None,
                                      "expectAbs": hx(it["entry"])} for it in links]))
             res["oracle"]["C18"] = r
             res["tags"].append("c18:links")
@@ -239,42 +272,72 @@ def evaluate(world, drv, plan=None, model_faults=None, oracles=("C01", "C04", "C
                 bad = dict(r, index=i)
                 break
         res["oracle"]["C05"] = bad or {"ok": True, "verdict": "ok", "states": len(obs["states"])}
-    if "C07" in oracles and len(facts["items"]) == 1 and facts["items"][0]["entry"] is not None \
-            and not facts["items"][0].get("ismount") and obs.get("exc") is None and facts["items"][0]["lexists"] \
+    if ("C07" in oracles or "C18" in oracles) and obs.get("exc") is None \
+            and world.get("opts", {}).get("mode") != "interactive" \
             and not any(m.get("spelling") == "symlink-dotdot" for m in world.get("meta", [])):
-        it = facts["items"][0]
+        # per argument: the trash directory the spec prescribes (C07.expected on the before-state) against the one that
+        # gained the entry.  With several arguments an entry is recognised by the name of its new payload, so the base
+        # names of the eligible arguments must tell them apart.
         opts = world.get("opts", {})
         env = world.get("env", {})
         fb = bool(opts.get("homeFallback")) and env.get("TRASH_ENABLE_HOME_FALLBACK") == b"1"
+        elig = [it for it in facts["items"] if it["entry"] is not None and not it.get("ismount") and it["lexists"]
+                and it["arg"] != b""]
+        names = [os.path.basename(it["entry"]) for it in elig]
+        single = len(facts["items"]) == 1
+        distinct = len(set(names)) == len(names) and not any(
+            a != c and re.fullmatch(re.escape(a) + rb"_\d+", c) for a in names for c in names)
+        after_state = snap_to_state(obs["after"])
 
         def cand(d, kind):
-            return {"dir": hx(d["dir"]), "files": hx(d["files"]), "info": hx(d["info"]), "kind": kind, "parentOk": bool(d["parentOk"])}
-        cands = []
-        if opts.get("trashDir"):
-            cands = [cand(d, "custom") for d in facts["dirs"] if d["kind"] == "custom"]
-        else:
+            return {"dir": hx(d["dir"]), "files": hx(d["files"]), "info": hx(d["info"]), "kind": kind, "parentOk": bool(d["parentOk"]),
+                    "blocked": bool(d.get("blocked"))}
+
+        def cands_for(it):
+            if opts.get("trashDir"):
+                return [cand(d, "custom") for d in facts["dirs"] if d["kind"] == "custom"]
             homes = [d for d in facts["dirs"] if d["kind"] == "home"]
-            cands += [cand(d, "home") for d in homes]
-            cands += [cand(d, d["kind"]) for d in facts["dirs"] if d["kind"] in ("top", "alt") and d["vol"] == it["dev"]]
-            cands.sort(key=lambda c: {"home": 0, "top": 1, "alt": 2}[c["kind"]])
+            cs = [cand(d, "home") for d in homes]
+            cs += [cand(d, d["kind"]) for d in facts["dirs"] if d["kind"] in ("top", "alt") and d["vol"] == it["dev"]]
+            cs.sort(key=lambda c: {"home": 0, "top": 1, "alt": 2}[c["kind"]])
             if opts.get("homeFallback"):
-                cands += [cand(d, "fallback") for d in homes]
-        after_state = snap_to_state(obs["after"])
-        got = None
-        for d in facts["dirs"]:
-            fdir = d["files"]
-            for p in after_state:
-                if p.startswith(fdir + b"/") and b"/" not in p[len(fdir) + 1:] and p not in before:
-                    got = d["dir"]
-        r = drv.ask(dict(base, prop="C07", dev=hx(it["dev"]), fallbackEnabled=fb, cands=cands,
-                         got=hx(got) if got is not None else None))
-        # a silent cross-device copy shows as data-copying calls outside info/
-        copied = any(rec[0] in ("createTrunc", "symlink") and not bytes.fromhex(rec[1][0]).endswith(b".trashinfo")
-                     for rec in obs["trace"] if rec[2] == "ok")
-        if r["ok"] and copied and not fb:
-            r = {"ok": False, "verdict": "C07.silent-copy"}
-        res["oracle"]["C07"] = r
-        res["tags"].append("c07:got:" + next((d["kind"] for d in facts["dirs"] if d["dir"] == got), "none"))
+                cs += [cand(d, "fallback") for d in homes]
+            return cs
+
+        def got_for(it):
+            bn = os.path.basename(it["entry"])
+            got = None
+            for d in facts["dirs"]:
+                fdir = d["files"]
+                for p in after_state:
+                    if p.startswith(fdir + b"/") and b"/" not in p[len(fdir) + 1:] and p not in before:
+                        nm = p[len(fdir) + 1:]
+                        if single or nm == bn or re.fullmatch(re.escape(bn) + rb"_\d+", nm):
+                            got = d["dir"]
+            return got
+        if elig and (single or distinct) and (single or len(elig) == len([x for x in facts["items"] if x["entry"] is not None])):
+            verdict, gots = None, []
+            for it in elig:
+                got = got_for(it)
+                gots.append(got)
+                r = drv.ask(dict(base, prop="C07", dev=hx(it["dev"]), fallbackEnabled=fb, cands=cands_for(it),
+                                 got=hx(got) if got is not None else None))
+                if not r["ok"] and verdict is None:
+                    verdict = dict(r, verdict=("%s (argument %r)" % (r["verdict"], it["arg"])) if not single else r["verdict"])
+                if "C18" in oracles and it.get("kind") == "link" and not r["ok"] and "notTrashedButShould" in r["verdict"]:
+                    res["oracle"]["C18-link-not-trashed"] = {"ok": False, "verdict": "C18.linkNotTrashedAlthoughATrashDirIsUsable"}
+            if "C07" in oracles:
+                r = verdict or {"ok": True, "verdict": "C07.Verdict.ok"}
+                if single:
+                    # a silent cross-device copy shows as data-copying calls outside info/
+                    copied = any(rec[0] in ("createTrunc", "symlink") and not bytes.fromhex(rec[1][0]).endswith(b".trashinfo")
+                                 for rec in obs["trace"] if rec[2] == "ok")
+                    if r["ok"] and copied and not fb:
+                        r = {"ok": False, "verdict": "C07.silent-copy"}
+                res["oracle"]["C07"] = r
+                res["tags"].append("c07:args:%d" % len(elig))
+                for got in gots:
+                    res["tags"].append("c07:got:" + next((d["kind"] for d in facts["dirs"] if d["dir"] == got), "none"))
     if "C08" in oracles:
         roots = [hx(d["dir"]) for d in facts["dirs"] if d["kind"] == "top" and d.get("insecure")]
         if roots:
